@@ -133,3 +133,12 @@ pub trait RandomizedConstraintSystem<F: PrimeField>: ConstraintSystem<F> {
     /// ```
     fn challenge_scalar(&mut self, label: &'static [u8]) -> F;
 }
+
+/// Verification hook (feature `verif-hooks`): overwrite the assignment of one
+/// multiplication gate so that a gate-violating witness can be pushed through the
+/// unmodified proving code. A no-op on the verifier side.
+#[cfg(feature = "verif-hooks")]
+pub trait VerifTamper<F: PrimeField> {
+    /// Overwrite `(left, right, out)` of gate `i` (ignored if the gate does not exist).
+    fn verif_overwrite_gate(&mut self, i: usize, l: F, r: F, o: F);
+}
